@@ -6,7 +6,7 @@ import os
 from lib import vlib
 from checks.common import absorb
 
-INVS = ("INVARIANTS Total ScopeDiscipline FlagsLocal CancelPrefix CancelQuiet CancelNoError Uninterrupted CancelPrompt Emit")
+INVS = ("INVARIANTS Total ScopeDiscipline FlagsLocal CancelPrefix CancelQuiet CancelNoError Uninterrupted CancelPrompt Refines Emit")
 
 
 def run_family(ck, label, progsets, with_signal=False, workers=None, timeout=2400, chunk=4000):
